@@ -234,6 +234,10 @@ impl<'a> Ingestion<'a> {
 
         if self.last_key.is_none() {
             log::trace!("No data written to Ingestion, returning early");
+
+            // NOTE: The writer pre-creates its table file, finishing an empty writer removes it again
+            self.writer.finish()?;
+
             return Ok(());
         }
 
